@@ -12,7 +12,8 @@ RULE = ('Lattice structures with <= D wires (generic and axis-aligned lattices, 
         'assignment of thin/thick radius for <=2 wires, alternating for more), grounded at either end, plus every '
         'description of the curved/tapered junction structures (arc, helix, one- and two-sided tapers joined at '
         'either end in every order/orientation; collinear telescoping wires of equal segment length and different radii; '
-        'a grounded wire at 11 lean angles 0..20 deg). For each built model ALL ordered pulse pairs (m,n) whose centres are '
+        'a grounded wire at 11 lean angles 0..20 deg; <=2-wire mixed-radius structures a second time on the SAME object at '
+        '4 f and f/4, where every radius changes its thin/thick class). For each built model ALL ordered pulse pairs (m,n) whose centres are '
         '>= 2.5 x the longest of the four segments involved apart are evaluated with adaptive quadrature from pulse '
         'point, far ends, radii and frequency only. State = (structure, pair); transition = one reference evaluation. '
         'Non-trivial: a junction, grounded, tapered or curved pulse is involved.')
@@ -38,6 +39,10 @@ def cases(tier, seed):
                 for flip in ((0,) * len(es), (1,) * len(es)):
                     st = [dict(a=(b if fl else a), b=(a if fl else b), n=nseg[i], r=rad[i] * lam) for i, ((a, b), fl) in enumerate(zip(es, flip))]
                     yield dict(env='ideal' if ground else 'free', f=f, lam=lam, pts=pts, st=st)
+                    # frequency changed on the same object, both ways across the 1e-4 wavelength radius threshold
+                    if len(es) <= 2 and not special and flip[0] == 0 and len(set(rad)) == len(es):
+                        yield dict(env='ideal' if ground else 'free', f=f, lam=lam, pts=pts, st=st, refreq=4.0)
+                        yield dict(env='ideal' if ground else 'free', f=f, lam=lam, pts=pts, st=st, refreq=0.25)
     if tier == 'thorough':
         for ground in (False, True):
             P, f, lam = geom.lattice(seed, ground=ground, n=7)
@@ -46,6 +51,13 @@ def cases(tier, seed):
                 nseg = [geom.auto_nseg(np.linalg.norm(P[a] - P[b]), 0.04 * lam, nmin=3) for a, b in es]
                 yield dict(env='ideal' if ground else 'free', f=f, lam=lam, pts=pts,
                            st=[dict(a=a, b=b, n=nseg[i], r=(3e-5, 2e-4, 3e-5)[i] * lam) for i, (a, b) in enumerate(es)])
+    # thick short-segment wires (segment = 8 radii) whose radius lies between 1e-4 wavelength of two frequencies: the matrix
+    # is filled at one frequency and then, on the same object, at the other (both directions); free space and ground
+    for env, z0 in (('free', 0.3), ('ideal', 0.0)):
+        ws = [geom.wire([0., 0., z0], [0.02, 0.01, z0 + 0.32], 8, 0.005), geom.wire([0.02, 0.01, z0 + 0.32], [0.3, 0.12, z0 + 0.4], 7, 0.005),
+              geom.wire([0.15, -0.1, z0 + 0.05], [0.15, -0.1, z0 + 0.37], 8, 0.004)]
+        for f0, rf in ((5.0, 6.0), (30.0, 1. / 6)):
+            yield dict(env=env, f=f0, lam=geom.C_MININEC / f0, wires=ws, name='thick-%s-f%g' % (env, f0), refreq=rf)
     for c in c03._lean(tier, seed):
         yield dict(env='ideal', f=c['f'], lam=c['lam'], pts=c['pts'], st=c['st'], name=c['name'])
     for c in c06.extras(tier, seed, thick=True):
@@ -74,10 +86,30 @@ def evaluate(c):
         return dict(viol=[], skipped='no-pulse', evals=0)
     m.compute_impedance_matrix()
     pgv = geom.pulse_geometry_violations(m)
-    k = 2 * np.pi / m.wavelen
-    srm = 1e-4 * m.wavelen
     viol, worst, n, wn = [(a, '%s: %s' % (name, b)) for a, b in pgv[:3]], 0.0, 0, None
     canon, nontriv = [], []
+    passes = [(name, '')]
+    if c.get('refreq'):
+        passes.append((name + '@f*%g' % c['refreq'], '-refreq'))
+    for name, sfx in passes:
+      if sfx:
+        # the SAME object at another frequency: every radius changes its thin/thick class (1e-4 wavelength)
+        m.f = c['f'] * c['refreq']
+        m.compute_impedance_matrix()
+      k = 2 * np.pi / m.wavelen
+      srm = 1e-4 * m.wavelen
+      viol_n, worst_n, n_n, wn_n = _compare(m, c, name, sfx, k, srm, ground, canon, nontriv)
+      viol += viol_n
+      n += n_n
+      if worst_n > worst:
+          worst, wn = worst_n, wn_n
+    if n == 0:
+        return dict(viol=[], skipped='no-separated-pair', evals=1)
+    return dict(viol=viol[:6], canon=canon, nontriv=nontriv, trans=n, traces=n, evals=n, dev=worst, outcome=c['env'], note=dict(pair=wn, name=name))
+
+
+def _compare(m, c, name, sfx, k, srm, ground, canon, nontriv):
+    viol, worst, n, wn = [], 0.0, 0, None
     cen, seglen = [], []
     for p in m.pulses:
         cen.append(np.array(p.point, float))
@@ -98,8 +130,6 @@ def evaluate(c):
                 worst, wn = dev, (pm.idx, pn.idx)
             if not (dev <= 1e-4):
                 kind = 'gnd' if (pn.ground.any() or pm.ground.any()) else ('junction' if (pm.geo[0] is not pm.geo[1] or pn.geo[0] is not pn.geo[1]) else 'interior')
-                viol.append(('ZDEV-%s-%s' % (c['env'], kind), 'Z[%d,%d]=%s, formulation gives %s: deviation %.3g of the potential terms (%s)'
+                viol.append(('ZDEV-%s-%s%s' % (c['env'], kind, sfx), 'Z[%d,%d]=%s, formulation gives %s: deviation %.3g of the potential terms (%s)'
                              % (pm.idx, pn.idx, m.Z[pm.idx, pn.idx], ref, dev, name)))
-    if n == 0:
-        return dict(viol=[], skipped='no-separated-pair', evals=1)
-    return dict(viol=viol[:6], canon=canon, nontriv=nontriv, trans=n, traces=n, evals=n, dev=worst, outcome=c['env'], note=dict(pair=wn, name=name))
+    return viol, worst, n, wn
